@@ -13,7 +13,8 @@ LEVEL_TEXT = ("partial: Coq theorems over a small-step interleaving model of bot
               "the enforcer's book never lists a message twice and curSize is exactly its total [+ the message being evicted] and within "
               "the limit outside the eviction loop [mem_book_is_exact, mem_cursize_within_limit], and when everything has finished the "
               "book is exactly the messages in the mailboxes [mem_quiescent_accounting, deliveries = distinct Message objects], any schedule of the "
-              "memory-store model makes at most (n+1)*15n+2n productive steps [mem_step_bound: no livelock], every "
+              "memory-store model makes at most (n+1)*15n+2n productive steps and of the file-store model at most (n(1+n(n+1))+8)n "
+              "[mem_step_bound, file_step_bound: every step decreases a measure, no livelock], every "
               "non-walk operation commits exactly once, delivered-stays-unless-removed [memory store WITHOUT cap and size limit "
               "only; for every cap and limit: present-stays-unless-removed-or-evicted; file store, which the model has without cap: "
               "file_delivered_stays_unless_removed]; lock discipline at SOURCE level on synchronisation skeletons regenerated from "
@@ -107,7 +108,6 @@ ASSUMPTIONS = [
 NOT_PROVED = [
     "conc_sequential_is_memstore_limit_stmt (Proofs/ConcC07Seq.v): non-overlapping runs WITH the size limit answer as C07's run_mem for ALL histories — proved for histories of deliveries, reads and mark-seen without cap (conc_sequential_is_memstore_limit_partial: the eviction loop against MemStore.evict_loop); missing: the removal notices (RemoveMessage, PurgeMessages, cap evictions with the limit), where the model looks a message up in the enforcer's book by its tag (object identity) and C07's model by (mailbox, id) — needs distinct tags and 'every live message is registered' as invariants; checked meanwhile by forced-schedule correspondence and the qstep oracle",
     "concmem_refines_qstep_stmt (Proofs/ConcStmts.v): ConcMem refines the sub-action specification qstep used by the size-limit oracle — NOT proved; mem_linearizable_with_enforcer says only that evictions are removals committed by the enforcer, it does not constrain WHICH messages are evicted or when",
-    "file_terminates_stmt (Proofs/ConcStmts.v; audit item 5, 'every operation completes', file-store half): the number of productive steps of any schedule of the file-store model is bounded — NOT proved (the memory-store half is: mem_step_bound). Sketch: the walk's remaining work is a polynomial in the numbers of directories, which only deliveries still before their mkdir can increase; on the real store completion is observed under deadlines (forced schedules, fault and scan families)",
 ]
 EXEC_TIMEOUT = {"quick": 600, "thorough": 7200}
 
